@@ -316,7 +316,9 @@ def database_roundtrip(ctx, entity_map, label, rng, transport="IP") -> None:
             st = p1._accessories_state
             try:
                 if what == "state_num":
-                    cur["state_num"] = (cur["state_num"] or 0) + rng.choice([1, 1, 2, 200])
+                    # the accessory's counter mostly climbs; it also rolls over (65535 -> 1) and starts again at a small
+                    # number after a factory reset / reboot - whatever was saved LAST is what a restart must bring back
+                    cur["state_num"] = rng.choice([(cur["state_num"] or 0) + rng.choice([1, 1, 2, 200]), (cur["state_num"] or 0) + 1, 65535, 1, max(1, (cur["state_num"] or 2) - 1)])
                     if transport == "BLE" and hasattr(p1, "_update_cached_state_num"):
                         p1._update_cached_state_num(cur["state_num"])
                     else:
